@@ -54,6 +54,16 @@ def parseCond : List String → Option (Cond × List String)
 
 partial def parseStmt : List String → Option (Stmt × List String)
   | "skip" :: r => some (.skip, r)
+  | "brk" :: r => some (.brk, r)
+  | "cont" :: r => some (.cont, r)
+  | "(" :: "forp" :: r =>
+    match parseCond r with
+    | some (c, r1) => match parseStmt r1 with
+      | some (b, r2) => match parseStmt r2 with
+        | some (p, ")" :: r3) => some (.loopP c b p, r3)
+        | _ => none
+      | none => none
+    | none => none
   | "(" :: "seq" :: r =>
     match parseStmt r with
     | some (a, r1) => match parseStmt r1 with
@@ -184,9 +194,13 @@ def doProg (line : String) (fs : List String) : List String × Option (String ×
   | some (body, []) =>
     let p : Prog := { decls, body }
     let env := envOf salt
-    let src := goEval env w fuel p
+    -- the extended compiler / semantics (break, continue, post clauses); on plain programs they are
+    -- checked here to coincide with the ones `compile_correct` is about
+    let src := goEvalX env w fuel p
+    let isPlain := plain p.body
+    let xeq := !isPlain || (compileXP p == compile p && goEvalX env w fuel p == goEval env w fuel p)
     let srcLine := s!"SRC {id} done={b2s src.2} outs={outsStr src.1}"
-    match compile p with
+    match compileXP p with
     | none => ([s!"M {id} asm=!reject", srcLine], none)
     | some code =>
       let run := runCode env w code steps
@@ -194,7 +208,7 @@ def doProg (line : String) (fs : List String) : List String × Option (String ×
       let ramN := maxList ((memCells (allLocs p)).map (· + 1))
       let ns := findN env w code src.1 src.2 steps
       -- the hypotheses of `compile_correct_wf` / `compile_correct_full`, evaluated on this program
-      ([ s!"WF {id} wf={b2s (wfProg p)} scoped={b2s (scopedProg p)}",
+      ([ s!"WF {id} wf={b2s (wfProg p)} scoped={b2s (scopedProg p)} nostray={b2s (noStray p.body)} plain={b2s isPlain} xeq={b2s xeq}",
         s!"M {id} asm={";".intercalate (code.map Instr.text)}",
         s!"MR {id} regs={regCount code} ram={ramN} rom={code.length} ops={",".intercalate (opcodes code)}",
         srcLine,
